@@ -111,7 +111,7 @@ def run(ctx):
     rng = ctx.rng
     phase = {"proof": round(time.time() - t_start, 1)}
     t0 = time.time()
-    progs, items = sc.fragment_items(rng, ctx.n(32, 450), 3, 3, 6)
+    progs, items = sc.fragment_items(rng, ctx.n(28, 400), 3, 3, 6, extra=[(pg.shape_andor, ctx.n(60, 800))])
     mism, perr = sc.run_items(items, cpu=ctx.n(4, 6), timeout=ctx.n(600, 3000))
     phase["solvers"] = round(time.time() - t0, 1)
     if mism:
